@@ -361,9 +361,10 @@ func (f *Func) reachTarget(
 
 		case *typedArgVertex:
 			// A typed argument that was valued while another named value
-			// was being produced is resolved again: it should prefer the
-			// value named like the one we are producing now.
-			if v.Value.IsValid() && (state.Name == "" || v.valuedFor == "" || v.valuedFor == state.Name) {
+			// was being produced, or for a type-only requirement (no name
+			// at all), is resolved again when we are producing a named
+			// value: it should prefer the value named like that one.
+			if v.Value.IsValid() && (state.Name == "" || v.valuedFor == state.Name) {
 				skip = true
 				argMap[graph.VertexID(out)] = v.Value
 			}
